@@ -269,8 +269,10 @@ def gen_search(rng, m, vocab, base, simple=False, allow_last=False, allow_filter
         filt = []
         for _ in range(nf):
             k = rng.choice(t.keys)
-            vals = vocab.values(tn, k) or ["x"]
+            vals = [x for x in (vocab.values(tn, k) or ["x"]) if "+" not in x] or ["x"]
             v = rng.choice(vals + [segs[t.keys.index(k)]])
+            if "+" in v:   # URL metacharacter: '+' decodes to a space in a query (outside the family)
+                v = vals[0]
             pre = "~" if rng.random() < 0.25 else ""
             if rng.random() < 0.15 and len(vals) > 1:
                 v = v + "," + rng.choice([x for x in vals if x != v])
